@@ -146,6 +146,21 @@ def gen_case(seed):
                       "flips": [[rng.randrange(0, 1500), rng.choice([1, 0x80, 0xFF])] for _ in range(rng.choice([0, 1, 1, 3]))],
                       "trunc": rng.choice([0, 0, 1, 17, 400])}
             sc["script"].append(op)
+    r2 = random.Random("c20-forged/%s" % seed)
+    if kind == "hostile" and r2.random() < 0.6:
+        # authentic-looking but hostile packets (the peer's own keys): ACK frames for packet numbers that were never
+        # sent, as the first ACK an endpoint ever processes (Initial space, before the genuine answer arrives) and later
+        # in the application space; plus a few other frames a peer may send at any time
+        delay = sc["fates"].get("delay", 0.02)
+        acks = ["0203000003", "023f000000", "020a0001020103", "02ff7fffffffffffffff000000"[:10] + "0000"]
+        for k in ("retry", "frontend_vn"):
+            sc["opts"].pop(k, None)
+        if r2.random() < 0.7:
+            sc["script"].append({"t": round(delay * r2.choice([1.2, 1.5, 1.9]), 5), "side": "client", "op": "forge", "ptype": "initial",
+                                 "frames_hex": r2.choice(acks[:3]), "pad_to": 1200, "early": True})
+        for i in range(r2.choice([1, 2, 4])):
+            sc["script"].append({"t": round(0.3 + r2.random() * 2.0, 4), "side": r2.choice(["client", "server"]), "op": "forge", "ptype": "1rtt",
+                                 "frames_hex": r2.choice(acks[:3] + ["01", "1a0102030405060708", "1800"])})
     if kind in ("close", "hostile") and rng.random() < 0.7:
         sc["script"].append({"t": round(0.05 + rng.random() * 2.5, 4), "side": rng.choice(["client", "server"]), "op": "close",
                              "code": rng.choice([0, 7, 0x10E]), "frame_type": rng.choice([None, 0, 6]),
